@@ -13,6 +13,7 @@ Gap_5 implements the TIER_REPAIR logic:
 from __future__ import annotations
 
 import math
+from decimal import Decimal, InvalidOperation
 from typing import TYPE_CHECKING, Any
 
 from octave_mcp.core.ast_nodes import Assignment, Block, Document, LiteralZoneValue, Section
@@ -211,6 +212,14 @@ def _attempt_type_coercion(
             # These are lossy conversions - original value cannot be recovered
             # e.g., "1e309" -> inf is lossy, "1e308" -> 1e308 is lossless
             if not math.isfinite(coerced):
+                return value, False
+
+            # Lossless only: the float must denote exactly the decimal value that was written
+            # ("12345678901234567890.5" or "0.10000000000000001" would silently lose digits).
+            try:
+                if Decimal(repr(coerced)) != Decimal(value_stripped):
+                    return value, False
+            except InvalidOperation:
                 return value, False
 
         # Log the repair (I4 compliance)
